@@ -2,6 +2,7 @@ package main
 
 import (
 	"fmt"
+	"go/token"
 	"path/filepath"
 
 	"golang.org/x/tools/go/ssa"
@@ -429,10 +430,97 @@ func VarintLenBad(x uint64) int {
 	}
 	return n
 }
+
+// ---- register promotion of variables that closures only read (lift.go) -----------
+func acquire(a int) (*int, error) {
+	if a > 3 {
+		return nil, errX
+	}
+	return &a, nil
+}
+
+// the guard sits in a local predicate; err is assigned twice
+func LiftGuardGood(a int) int {
+	w, err := acquire(a)
+	if err != nil {
+		return 0
+	}
+	_ = w
+	v, err := acquire(a + 1)
+	failed := func() bool { return err != nil }
+	if failed() {
+		return 0
+	}
+	return sink(v)
+}
+
+// the predicate reads the error of another call
+func LiftGuardBad(a int) int {
+	_, err := acquire(a)
+	v, err2 := acquire(a + 1)
+	_ = err2
+	failed := func() bool { return err != nil }
+	if failed() {
+		return 0
+	}
+	return sink(v)
+}
+
+// the predicate is evaluated before the assignment it would have to see
+func LiftGuardStale(a int) int {
+	var v *int
+	var err error
+	failed := func() bool { return err != nil }
+	stale := failed()
+	v, err = acquire(a)
+	if stale {
+		return 0
+	}
+	return sink(v)
+}
+
+// a closure writes the variable: it must stay in its cell
+func LiftWritten(a int) int {
+	x := a
+	set := func() { x = 0 }
+	if cond() {
+		set()
+	}
+	return x
+}
+
+// a 3-clause loop variable read by a predicate (per-iteration copies)
+func LiftLoopVar(xs []*int) int {
+	n := 0
+	for i := 0; i < len(xs); i++ {
+		inRange := func() bool { return i < 2 }
+		if inRange() {
+			n += sink(xs[i])
+		}
+	}
+	return n
+}
+
+// a struct variable whose fields a predicate reads
+type liftPair struct {
+	p   *int
+	err error
+}
+
+func LiftStructGood(a int) int {
+	var r liftPair
+	r.p, r.err = acquire(a)
+	q := r
+	bad := func() bool { return q.err != nil }
+	if bad() {
+		return 0
+	}
+	return sink(q.p)
+}
 `
 
 func runControls(c *Ctx, rep *Report) {
-	ru := rep.Rule(rep.Prop+"-CTRL", "controls", 30, "positive/negative controls of the engines on the fixture package (virtual, via overlay): every engine must accept its Good shapes and reject its Bad ones on this very run")
+	ru := rep.Rule(rep.Prop+"-CTRL", "controls", 46, "positive/negative controls of the engines on the fixture package (virtual, via overlay): every engine must accept its Good shapes and reject its Bad ones on this very run")
 	if c.Pkg(controlsPkg) == nil {
 		ru.Err("fixture", "fixture package not loaded")
 		return
@@ -722,5 +810,70 @@ func runControls(c *Ctx, rep *Report) {
 		}
 		loops, bad := varintLoops(f)
 		expect("pattern varint length loop "+x.n, x.bad, len(bad) > 0 || loops == 0)
+	}
+	// register promotion (lift.go): a guard written as a local predicate over a re-assigned variable is the guard
+	// (and a predicate over another variable, or evaluated before the assignment, is not); a variable a closure
+	// writes stays in its cell; loop variables and struct variables are promoted
+	for _, x := range []struct {
+		n   string
+		bad bool
+	}{{"LiftGuardGood", false}, {"LiftGuardBad", true}, {"LiftGuardStale", true}} {
+		f := fn(x.n)
+		if f == nil {
+			ru.Err("control "+x.n, "fixture function missing")
+			continue
+		}
+		var acq ssa.CallInstruction
+		for _, ci := range callsIn(f, controlsPkg+".acquire") {
+			acq = ci // the last one: the call whose result reaches the sink
+		}
+		w, _ := (&Cut{Fn: f, Target: isSink, EdgeCut: edgeNil(func(v ssa.Value) bool { ci, i := resultOf(v); return ci == acq && i == 1 }, true)}).Run(c)
+		expect("lift guard in a local predicate "+x.n, x.bad, w != "")
+	}
+	cellsOf := func(f *ssa.Function, name string) (promoted, kept int) {
+		allInstrsIn(f, func(in ssa.Instruction) {
+			if al, ok := in.(*ssa.Alloc); ok && al.Comment == name {
+				if liftedCells[al] || liftGroupRep[al] != nil {
+					promoted++
+				} else {
+					kept++
+				}
+			}
+		})
+		return
+	}
+	if f := fn("LiftWritten"); f != nil {
+		p, k := cellsOf(f, "x")
+		expect("lift leaves a variable that a closure writes in its cell", false, p != 0 || k != 1)
+	} else {
+		ru.Err("control LiftWritten", "fixture function missing")
+	}
+	if f := fn("LiftLoopVar"); f != nil {
+		p, k := cellsOf(f, "i")
+		loads := 0
+		allInstrsIn(f, func(in ssa.Instruction) {
+			if u, ok := in.(*ssa.UnOp); ok && u.Op == token.MUL {
+				if _, isGroup := liftGroupRep[u.X]; isGroup {
+					loads++
+				}
+			}
+		})
+		expect("lift promotes a 3-clause loop variable read by a predicate (both cells, no read of them left)", false, p != 2 || k != 0 || loads != 0)
+		w, _ := (&Cut{Fn: f, Target: isSink, EdgeCut: edgeIntBound(func(v ssa.Value) bool { _, isPhi := v.(*ssa.Phi); return isPhi }, -intInf, 1, false)}).Run(c)
+		expect("lift: the loop variable read inside the predicate is the loop's counter", false, w != "")
+	} else {
+		ru.Err("control LiftLoopVar", "fixture function missing")
+	}
+	if f := fn("LiftStructGood"); f != nil {
+		acqs := callsIn(f, controlsPkg+".acquire")
+		w := "no acquire"
+		if len(acqs) == 1 {
+			w, _ = (&Cut{Fn: f, Target: isSink, EdgeCut: edgeNil(func(v ssa.Value) bool {
+				return derivesFrom(v, func(x ssa.Value) bool { ci, i := resultOf(x); return ci == acqs[0] && i == 1 })
+			}, true)}).Run(c)
+		}
+		expect("lift: a field of a struct variable read inside a predicate", false, w != "")
+	} else {
+		ru.Err("control LiftStructGood", "fixture function missing")
 	}
 }
